@@ -131,10 +131,11 @@ def class_ns(c):
     for s in c.node.body:
         if isinstance(s, (ast.FunctionDef, ast.AsyncFunctionDef)):
             fi = c.methods[s.name]
+            key = mangle(s.name, c)          # private methods (__name) are stored under their mangled name, as CPython does
             if fi.kind == 'property':
-                c.ns[s.name] = PropertyV(fi)
+                c.ns[key] = PropertyV(fi)
             else:
-                c.ns[s.name] = fi
+                c.ns[key] = fi
             continue
         try:
             it.stmt(s, fr)
@@ -595,6 +596,17 @@ class Interp:
     def contains(self, cont, item):
         if isinstance(cont, SMap):
             return cont.has(item)
+        if isinstance(cont, RangeV):
+            if cont.concrete() and isinstance(item, int):
+                return item in range(cont.lo, cont.hi, cont.step)
+            if not V._isnum(item):
+                return False
+            x, lo, hi = zint(item), zint(cont.lo), zint(cont.hi)
+            if cont.step == 1:
+                return mk(z3.And(x >= lo, x < hi))
+            if cont.step > 0:
+                return mk(z3.And(x >= lo, x < hi, (x - lo) % cont.step == 0))
+            raise Unsupported('membership in a descending range')
         if isinstance(cont, dict):
             cont = list(cont.keys())
         if isinstance(cont, (list, tuple, set, frozenset)):
